@@ -68,7 +68,7 @@ type blkSpec struct {
 	Txs    uint32 `json:"txs"`
 }
 
-// op kinds: add readd get getnc getunknown length trust invalid invalidlast invalidtail twin abortedreopen idle reopen burst bigburst
+// op kinds: add readd get getnc getunknown length trust trustinv readdinv invalid invalidlast invalidtail twin abortedreopen idle reopen burst bigburst
 type op struct {
 	Op       string   `json:"op"`
 	B        *blkSpec `json:"b,omitempty"`
@@ -108,22 +108,29 @@ type mblk struct {
 	stored  int64 // length on disk (after compression)
 	gone    bool  // its data file fell out of the configured retention (DataFilesKeep, no backup)
 	lost    bool  // its index record was cut away by a simulated crash: the block is not stored any more
+	// marked invalid, and the store has been restarted since: the store does not know the hash any more
+	forgotten bool
+	// handed to the store again after it had been marked invalid on disk, in the same session
+	reAdded bool
 }
 
+const kfReaddInvalid = "readd-after-invalid-not-stored"
+
 type summary struct {
-	adds, rolls, flagUpd, reopens, removed   int
-	reopenAfterFlagOrRoll                    bool
-	readQueued, readDisk, readGone, sweepCnt int
-	maxBlock                                 int
-	burst                                    bool
-	invalidOnDisk, appendAfterInvalidReopen  bool
-	invalidReopened, byteFlush               bool
-	idxRegress, idxRegressArchived           bool
-	unindexedTail, appendAfterTail           bool
-	cutRecords, abortedLoads, twins          int
-	abortedMidway                            bool
-	dataCuts, readBeyond4G                   int
-	addsAfterCutThenReopen                   bool
+	trustAfterInvalid, readdAfterInvalid, excludedReadd int
+	adds, rolls, flagUpd, reopens, removed              int
+	reopenAfterFlagOrRoll                               bool
+	readQueued, readDisk, readGone, sweepCnt            int
+	maxBlock                                            int
+	burst                                               bool
+	invalidOnDisk, appendAfterInvalidReopen             bool
+	invalidReopened, byteFlush                          bool
+	idxRegress, idxRegressArchived                      bool
+	unindexedTail, appendAfterTail                      bool
+	cutRecords, abortedLoads, twins                     int
+	abortedMidway                                       bool
+	dataCuts, readBeyond4G                              int
+	addsAfterCutThenReopen                              bool
 }
 
 type runner struct {
@@ -285,7 +292,19 @@ func (r *runner) open() error {
 	}
 	for _, b := range r.records {
 		if !b.invalid && !b.gone && !seen[b.hash.Hash] {
-			return fmt.Errorf("after reopen the index does not list block #%d (height %d, %d bytes, record in file %d)", r.serial(b), b.height, len(b.raw), b.file)
+			if b.reAdded && r.byHash[b.hash.Hash] == b && pbt.FindingOpen(kfReaddInvalid) && os.Getenv("VERIF_REPLAY") == "" {
+				// open finding: a block handed over again after it was marked invalid on disk is not stored again
+				r.sum.excludedReadd++
+				b.invalid = true
+				continue
+			}
+			return fmt.Errorf("after reopen the index does not list block #%d (height %d, %d bytes, record in file %d; re-added after invalid: %v)", r.serial(b), b.height, len(b.raw), b.file, b.reAdded)
+		}
+	}
+	for _, b := range r.blocks {
+		b.reAdded = false
+		if b.invalid {
+			b.forgotten = true
 		}
 	}
 	return nil
@@ -404,12 +423,17 @@ func (r *runner) add(s *blkSpec, trusted bool) {
 	// unique header: the hash of the first 80 bytes names the block
 	hp := &prng{s: s.Seed*0x9e3779b97f4a7c15 + uint64(len(r.blocks))*0x100000001b3 + 1}
 	hp.fill(raw[:80])
-	b := &mblk{raw: raw, hash: btc.NewSha2Hash(raw[:80]), height: s.Height, txs: s.Txs, trusted: trusted}
-	bl := &btc.Block{Raw: raw, Hash: b.hash, TxCount: int(s.Txs)}
+	r.store(raw, s.Height, s.Txs, trusted)
+}
+
+// store hands a block whose hash the store does not know (any more) to BlockAdd and registers it in the model.
+func (r *runner) store(raw []byte, height, txs uint32, trusted bool) *mblk {
+	b := &mblk{raw: raw, hash: btc.NewSha2Hash(raw[:80]), height: height, txs: txs, trusted: trusted}
+	bl := &btc.Block{Raw: raw, Hash: b.hash, TxCount: int(txs)}
 	if trusted {
 		bl.Trusted.Set()
 	}
-	r.db.BlockAdd(s.Height, bl)
+	r.db.BlockAdd(height, bl)
 	r.blocks = append(r.blocks, b)
 	r.byHash[b.hash.Hash] = b
 	r.queue = append(r.queue, b)
@@ -433,6 +457,7 @@ func (r *runner) add(s *blkSpec, trusted bool) {
 		}
 		r.mFlush()
 	}
+	return b
 }
 
 func (r *runner) do(o op) error {
@@ -506,6 +531,53 @@ func (r *runner) do(o op) error {
 			r.sum.flagUpd++
 			r.dirtySeq = true
 		}
+		return r.checkGet(b, false)
+	case "trustinv":
+		// mark-trusted after mark-invalid on the same block: the block stays invalid (unlisted after a restart)
+		var l []*mblk
+		for _, b := range r.blocks {
+			if b.invalid && !b.lost && r.byHash[b.hash.Hash] == b { // (no newer block with the same hash)
+				l = append(l, b)
+			}
+		}
+		if len(l) == 0 {
+			return nil
+		}
+		b := l[o.I%len(l)]
+		r.db.BlockTrusted(b.hash.Hash[:])
+		r.sum.trustAfterInvalid++
+		if b.written && !b.forgotten {
+			b.trusted = true // the record is still in memory: its flag is set (and TRUSTED is or-ed on disk)
+		}
+	case "readdinv":
+		// the block is handed to the store again after it was marked invalid (it verifies on a later delivery:
+		// CommitBlock calls BlockAdd, with Trusted set when it extends the tip): it is a stored block again
+		var l []*mblk
+		for _, b := range r.blocks {
+			if b.invalid && !b.lost && b.written && r.byHash[b.hash.Hash] == b {
+				l = append(l, b)
+			}
+		}
+		if len(l) == 0 {
+			return nil
+		}
+		b := l[o.I%len(l)]
+		r.sum.readdAfterInvalid++
+		if b.forgotten {
+			// after a restart the store does not know the hash: a regular store, with a new record
+			b2 := r.store(append([]byte(nil), b.raw...), b.height, b.txs, o.Trusted)
+			return r.checkGet(b2, false)
+		}
+		bl := &btc.Block{Raw: append([]byte(nil), b.raw...), Hash: btc.NewUint256(b.hash.Hash[:]), TxCount: int(b.txs)}
+		if o.Trusted {
+			bl.Trusted.Set()
+		}
+		r.db.BlockAdd(b.height, bl)
+		b.invalid, b.reAdded = false, true
+		if o.Trusted {
+			b.trusted = true
+		}
+		r.dirtySeq = true
 		return r.checkGet(b, false)
 	case "invalid", "invalidlast":
 		// BlockInvalid on a trusted block panics by design: only untrusted blocks are candidates
@@ -628,17 +700,11 @@ func (r *runner) twin(s *blkSpec, salt int) error {
 	size2 := 81 + (len(b.raw)*7+salt)%(2*len(b.raw))
 	raw2 := makeBytes(kinds[salt%len(kinds)], size2, s.Seed^uint64(salt)*0x9e3779b97f4a7c15^1)
 	copy(raw2[:80], b.raw[:80])
-	b2 := &mblk{raw: raw2, hash: btc.NewSha2Hash(raw2[:80]), height: s.Height + 1, txs: s.Txs + 1}
-	r.db.BlockAdd(b2.height, &btc.Block{Raw: raw2, Hash: b2.hash, TxCount: int(b2.txs)})
-	r.blocks = append(r.blocks, b2)
-	r.byHash[b2.hash.Hash] = b2
-	r.queue = append(r.queue, b2)
-	r.datToWr += uint64(len(raw2))
-	r.sum.adds++
-	r.sum.twins++
-	if len(r.queue) >= chain.MAX_BLOCKS_TO_WRITE || r.datToWr >= chain.MAX_DATA_WRITE {
-		r.mFlush()
+	if salt%3 == 0 { // the very same block again (a peer re-sends it)
+		raw2 = append([]byte(nil), b.raw...)
 	}
+	b2 := r.store(raw2, s.Height+1, s.Txs+1, salt%2 == 1)
+	r.sum.twins++
 	return r.checkGet(b2, false)
 }
 
@@ -965,7 +1031,7 @@ func genSpec(t *rapid.T, thorough bool) *blkSpec {
 var opWeights = []struct {
 	op string
 	w  int
-}{{"add", 300}, {"readd", 50}, {"getnc", 50}, {"getunknown", 15}, {"length", 60}, {"burst", 2}, {"bigburst", 2}, {"trust", 60}, {"invalid", 40}, {"invalidlast", 30}, {"invalidtail", 20}, {"twin", 15}, {"idle", 100}, {"reopen", 80}, {"abortedreopen", 25}, {"get", 150}}
+}{{"add", 300}, {"readd", 50}, {"getnc", 50}, {"getunknown", 15}, {"length", 60}, {"burst", 2}, {"bigburst", 2}, {"trust", 60}, {"trustinv", 25}, {"readdinv", 25}, {"invalid", 40}, {"invalidlast", 30}, {"invalidtail", 20}, {"twin", 15}, {"idle", 100}, {"reopen", 80}, {"abortedreopen", 25}, {"get", 150}}
 
 func genOp(t *rapid.T, thorough bool) op {
 	tot := 0
@@ -1015,7 +1081,7 @@ func genOp(t *rapid.T, thorough bool) op {
 	case "burst":
 		o.N = rapid.IntRange(1000, 1100).Draw(t, "n")
 		o.I = rapid.IntRange(0, 1<<20).Draw(t, "i")
-	case "readd":
+	case "readd", "readdinv":
 		o.I = rapid.IntRange(0, 1<<20).Draw(t, "i")
 		o.Trusted = rapid.Bool().Draw(t, "trusted")
 	case "length":
@@ -1076,6 +1142,15 @@ func TestBlockDBModel(t *testing.T) {
 		c := genCase(r.T, thorough)
 		r.Case(c)
 		sum, err := checkBlockDB(c)
+		for i := 0; i < sum.excludedReadd; i++ {
+			r.Excluded(kfReaddInvalid)
+		}
+		if sum.trustAfterInvalid > 0 {
+			r.Class("trusted_after_invalid")
+		}
+		if sum.readdAfterInvalid > 0 {
+			r.Class("readd_after_invalid")
+		}
 		if c.Cfg.Compress {
 			r.Class("compress_on")
 		} else {
